@@ -498,6 +498,61 @@ func TestC01(t *testing.T) {
 			}
 		}
 	}
+	// the deprecated frame.Writer.WriteMessage / frame.ReadWriter.WriteMessage on a version 1 writer: a dialect message
+	// whose id is above 255 (decoded or already encoded) must be refused with nothing emitted
+	{
+		users, err := userMsgInfos()
+		if err != nil {
+			t.Fatal(err)
+		}
+		var high []*msgInfo
+		var msgs []message.Message
+		for _, mi := range users {
+			msgs = append(msgs, mi.Msg)
+			if mi.Msg.GetID() > 255 {
+				high = append(high, mi)
+			}
+		}
+		drw, err := newDialectRW(msgs...)
+		if err != nil {
+			t.Fatal(err)
+		}
+		r := vh.Sub(seed, "c01-writemessage")
+		for _, mi := range high {
+			for k := 0; k < 4; k++ {
+				val := reflect.New(mi.Type)
+				vh.FillMessage(r, mi.Layout, val, vh.ModeMixed)
+				var m message.Message = val.Interface().(message.Message)
+				if k%2 == 1 {
+					m = &message.MessageRaw{ID: mi.Msg.GetID(), Payload: mi.Layout.Encode(val, false)}
+				}
+				w := &recWriter{}
+				var write func(message.Message) error
+				if k < 2 {
+					fw := &frame.Writer{ByteWriter: w, DialectRW: drw, OutVersion: frame.V1, OutSystemID: 1}
+					_ = fw.Initialize()
+					write = fw.WriteMessage
+				} else {
+					frw := &frame.ReadWriter{ByteReadWriter: struct {
+						io.Reader
+						io.Writer
+					}{bytes.NewReader(nil), w}, DialectRW: drw, OutVersion: frame.V1, OutSystemID: 1}
+					_ = frw.Initialize()
+					write = frw.WriteMessage
+				}
+				rep.Eval(1)
+				rep.Count("v1_refusals", 1)
+				cfg := c01cfg{version: 1, dialect: "known"}
+				guard(rep, c01key(cfg, "msgid", "panic"), func() interface{} { return mi.Name }, func() {
+					err := write(m)
+					if err == nil || len(w.all()) != 0 {
+						rep.Violation(c01key(cfg, "msgid", "refuse"), fmt.Sprintf("WriteMessage on a v1 writer did not refuse message id %d (err=%v, %d bytes emitted)", mi.Msg.GetID(), err, len(w.all())),
+							map[string]interface{}{"msg": mi.Name, "emitted": vh.Hex(w.all())})
+					}
+				})
+			}
+		}
+	}
 	rep.Set("configurations", 9)
 	rep.Floor("stream_frames", 100)
 	rep.Floor("decoded_frames", 100)
